@@ -38,7 +38,7 @@ def _chain(var):
 SRC_EXT = (
     "{% for x in it FILTER %}{{ rec('x', x) }}"
     "{% set k1 = q[loop.index0] %}" + _chain("k1") + "SLOT2"
-    "{{ rec('p', loop.index0, loop.index, loop.first, loop.previtem, loop.cycle('p','q','r'), loop.changed(x), loop.depth, loop.depth0) }}"
+    "{{ rec('p', loop.index0, loop.index, loop.first, loop.previtem, loop.cycle('p','q','r'), loop.changed(x), loop.depth, loop.depth0, loop.changed(x), loop.changed(x, 1)) }}"
     "{% else %}{{ rec('else') }}{% endfor %}{{ rec('end') }}"
 )
 SRC_PLAIN = "{% for x in it FILTER %}{{ rec('x', x) }}{% else %}{{ rec('else') }}{% endfor %}{{ rec('end') }}"
@@ -94,7 +94,36 @@ def _iterable(xs):
         return agen_of(xs)
     if f == "liar":
         return Liar(xs)
+    if f == "reiter":
+        return ReIter(xs)
+    if f == "areiter":
+        return AReIter(xs)
     raise AssertionError(f)
+
+
+class ReIter:
+    """Unsized and re-iterable: every __iter__ call starts a fresh generator."""
+
+    def __init__(self, xs):
+        self.xs = list(xs)
+
+    def __iter__(self):
+        for x in self.xs:
+            yield x
+
+
+class AReIter:
+    """Unsized and re-iterable asynchronously: every __aiter__ call starts a fresh async generator."""
+
+    def __init__(self, xs):
+        self.xs = list(xs)
+
+    async def _gen(self):
+        for x in self.xs:
+            yield x
+
+    def __aiter__(self):
+        return self._gen()
 
 
 class Liar:
@@ -141,7 +170,7 @@ def expected(xs, t, q):
             if SLOT2[P["slot2"]]:
                 log.append(("s", _attr(SLOT2[P["slot2"]], ys, i)))
             log.append(("p", i, i + 1, i == 0, ys[i - 1] if i > 0 else ("<undefined>",), "pqr"[i % 3],
-                        i == 0 or ys[i - 1] != x, 1, 0))
+                        i == 0 or (ys[i - 1], 1) != (x,), 1, 0, False, True))
     if n == 0:
         log.append(("else",))
     log.append(("end",))
@@ -232,13 +261,15 @@ def conditions(tier, seed):
     to = 420 if thorough else 45
     out = []
     for asyncm in (False, True):
-        forms = ["list", "tuple", "iter", "gen", "liar"] + (["agen"] if asyncm else [])
+        forms = ["list", "tuple", "iter", "gen", "liar", "reiter"] + (["agen", "areiter"] if asyncm else [])
         for form in forms:
             for filt in (False, True):
-                if filt and form in ("tuple", "iter", "liar"):
+                if filt and form in ("tuple", "iter", "liar", "reiter", "areiter"):
                     continue
                 for slot2 in range(len(SLOT2)):
                     if not thorough and slot2 in (3, 4) and form in ("tuple", "iter", "liar"):
+                        continue
+                    if not thorough and slot2 in (0, 2, 3) and form in ("reiter", "areiter"):
                         continue
                     p = dict(form=form, filter=filt, asyncm=asyncm, maxn=maxn, plain=False, slot2=slot2)
                     out.append(Cond(
